@@ -121,5 +121,15 @@ func specs() []*spec {
 			Model:          []string{"scripted in-memory IPFS HTTP daemon installed as http.DefaultTransport (pin table with modes, go-ipfs error strings, go-ipfs-cmds X-Stream-Error trailer); the effect of pin/add lands with the final stream object unless the request was cancelled"},
 			Assumptions:    []string{"swarm/connect to origins is best effort by design and not judged", "the watchdog bound is 2 x PinTimeout + 1 s after the last progress (it ticks once per PinTimeout)", "a daemon that answers 200 to pin/rm or pin/update has performed it"},
 		},
+		{
+			ID: "C01", Harness: "raftsim", Level: "exploration",
+			Batch: 1, QuickSecs: 60, ThoroughSecs: 900, PlanTimeoutS: 90, // one process per plan on the heavy stack: a plan runs exactly as its replay would
+			DetSamples: 10, DetThreshold: 0.9,
+			RequiredProbes: []string{"observations", "acknowledged_ops", "replica_restored_from_snapshot", "leader_killed", "killed_with_call_in_flight", "leader_isolated", "offline_state_read", "tracker_handoffs_checked", "kill", "restart", "stop", "partition"},
+			Rule:           "plan = 1-4 real Raft peers (heartbeat 50 ms-1 s, commit timeout, SnapshotThreshold 2-64, SnapshotInterval 0.3-30 s, TrailingLogs 0-32, CommitRetries 0-2, WaitForLeaderTimeout, link latency) + 8-90 steps: overlapping LogPin/LogUnpin at any member over 2-5 CIDs with pins drawn from the whole well-formed space (type, mode, factors, allocations, origins, metadata incl. empty key/value, expiry whole/sub-second, names, update and reference CIDs of both versions), partitions (incl. leader isolated), heals, connection resets, latency changes, stalls, kill (copy of the tmpfs data folder at that instant) + restart on the copy, graceful stop (+OfflineState) and start; then heal, 60 s liveness budget and a fresh write. Non-trivial = >=1 operation and >=1 fault fired; distinct = distinct canonical trace digest.",
+			Real:           []string{"consensus/raft (Consensus, raftWrapper, LogOp.ApplyTo, commit/redirectToLeader, OfflineState, snapshot on shutdown)", "state/dsstate + api pin codecs (protobuf stored form, msgpack log form)", "go-libp2p-raft (FSM, codec, transport)", "hashicorp/raft, raft-boltdb + BoltDB, file snapshot store on tmpfs", "go-libp2p-gorpc, libp2p basic host on mocknet"},
+			Model:          []string{"PinTracker RPC service (recording)", "recording datastore under dsstate (observes every applied write and snapshot restore in order)", "Consensus RPC service shim delegating to the real Consensus (leader redirect)"},
+			Assumptions:    []string{"disk model is process kill: every completed write survives, nothing is torn inside a BoltDB transaction", "a failed or timed-out call may or may not have committed (both legal)", "residual scheduling nondeterminism of the heavy stack: exact-trace replay >= 90% (DESIGN §4), oracles are schedule independent"},
+		},
 	}
 }
